@@ -26,6 +26,8 @@ TU = "scriptplan/_cython/time_utils_cy.pyx"
 MP = "scriptplan/parser/macro_processor.py"
 
 MUTANTS = [
+    # ------------------------------------------------------------------ revert of repaired defect F70 (C19)
+    ("c19_stdin_empty_by_text_strip", "C19", [(PL, "            if not stdin_bytes.strip():", "            if not stdin_bytes.decode(\"utf-8\").strip():")]),
     ("c20_output_dir_env_first", "C20", [(MN, "        output_dir = self.args.output_dir or \"./\"", "        output_dir = os.environ.get(\"PLAN_OUTPUT_DIR\", self.args.output_dir or \"./\")")]),
     # ------------------------------------------------------------------ revert of repaired defect F69 (C12)
     ("c12_scenarios_scheduled_again", "C12", [(PJ, "            if scIdx in self._scheduledScenarios:\n                continue\n            self._scheduledScenarios.add(scIdx)\n", "")]),
